@@ -1376,6 +1376,8 @@ pub fn run_tm_case(c: &tmw::Case) -> CaseResult {
     let mut pre = init.clone();
     for st in &c.steps {
         crate::chain::set_time(&mut w.app, st.at);
+        tmw::prepare(&mut w, &st.op);
+        pre.cw2 = crate::w_migrate::get_cw2(&w.app, &w.minter);
         let d0 = crate::chain::storage_digest(&w.app, &w.minter);
         let r = tmw::apply(&mut w, &st.op);
         let d1 = crate::chain::storage_digest(&w.app, &w.minter);
@@ -1392,7 +1394,7 @@ pub fn run_tm_case(c: &tmw::Case) -> CaseResult {
         if pick != 0 {
             *res.hist.entry(format!("{}:{}:minted", TM_VARIANT, st.op.kind())).or_insert(0) += 1;
         }
-        steps_coq.push(format!("({}, {}, {})", st.at, tmw::op_coq(&st.op, pick), tmw::obs_coq(ok, &post)));
+        steps_coq.push(format!("({}, {}, {})", st.at, tmw::op_coq(&st.op, if ok { pick } else { pre.positions.first().map(|p| p.1 as u64).unwrap_or(0) }, &pre.cw2), tmw::obs_coq(ok, &post, tmw::cw2_after(&st.op, &post).as_ref())));
         let mut bad = |k: &str, what: String| res.violations.push((format!("C01:tm-{}", k), format!("{}: {:?}: {}", TM_VARIANT, st.op, what)));
         if !ok {
             if pre != post || d0 != d1 {
@@ -1493,7 +1495,7 @@ pub fn run_tm_case(c: &tmw::Case) -> CaseResult {
         }
     }
     if res.violations.is_empty() || steps_coq.len() == c.steps.len() {
-        res.coq = Some(format!("C17Case {} {} [{}]", tmw::cfg_coq(c), tmw::obs_coq(true, &init), steps_coq.join("; ")));
+        res.coq = Some(format!("C17Case {} {} [{}]", tmw::cfg_coq(c), tmw::obs_coq(true, &init, None), steps_coq.join("; ")));
     }
     res
 }
@@ -1612,6 +1614,31 @@ fn tm_corpus() -> Vec<tmw::Case> {
     b.shuffle(1);
     b.mint_to(2);
     v.push(b.case);
+    // migrations (older stored version, same version, refused, by a stranger) and factory governance around every
+    // kind of supply event: the counts, the remaining ids and the minted ids must be what they were
+    let older = || Some(("crates.io:sg-minter".to_string(), "0.0.1".to_string()));
+    let mut b = TmB::new("tm-corpus-migrate", &[1], 6, 3, 0);
+    b.push(tmw::Op::Migrate { who: tmw::CREATOR, stored: older() });
+    b.merge(1, tmw::Recip::None);
+    b.push(tmw::Op::Migrate { who: tmw::CREATOR, stored: older() });
+    b.mint_to(2);
+    b.push(tmw::Op::Migrate { who: tmw::CREATOR, stored: None });
+    b.mint_for(6, 3);
+    b.push(tmw::Op::Migrate { who: 5, stored: older() });
+    b.push(tmw::Op::Migrate { who: tmw::CREATOR, stored: Some(("crates.io:sg-minter".to_string(), "99.0.0".to_string())) });
+    b.shuffle(2);
+    b.push(tmw::Op::Migrate { who: tmw::CREATOR, stored: older() });
+    b.push(tmw::Op::SudoParams { max_limit: Some(2), airdrop_price: Some(5), shuffle_fee: Some(600), add_code_id: Some(9), offset: None });
+    b.mint_to(2);
+    b.push(tmw::Op::MintTo { caller: tmw::CREATOR, recip: tmw::Recip::Addr(2), funds: vec![(0, 5)] });
+    b.push(tmw::Op::SudoParams { max_limit: None, airdrop_price: Some(0), shuffle_fee: Some(500), add_code_id: None, offset: None });
+    b.merge(3, tmw::Recip::None);
+    b.push(tmw::Op::BurnRemaining { caller: tmw::CREATOR, funds: vec![] });
+    b.push(tmw::Op::Migrate { who: tmw::CREATOR, stored: older() });
+    b.mint_to(2);
+    b.merge(3, tmw::Recip::None);
+    b.shuffle(2);
+    v.push(b.case);
     // mint-for boundaries: 0, n+1, n, 1, and an id a deposit already took
     let mut b = TmB::new("tm-corpus-mintfor-bounds", &[1], 4, 3, 1000);
     b.mint_for(0, 1);
@@ -1643,6 +1670,14 @@ fn gen_tm_case(rng: &mut Rng, idx: usize, thorough: bool) -> tmw::Case {
     for i in 0..len {
         if rng.chance(1, 4) {
             b.t += rng.range(1, 5) * 1_000_000_000;
+        }
+        if rng.chance(1, 10) {
+            let stored = match rng.below(4) {
+                0 => None,
+                1 => Some(("crates.io:sg-minter".to_string(), "99.0.0".to_string())),
+                _ => Some(("crates.io:sg-minter".to_string(), format!("{}.{}.{}", rng.below(4), rng.below(20), rng.below(3)))),
+            };
+            b.push(tmw::Op::Migrate { who: if rng.chance(4, 5) { tmw::CREATOR } else { rng.below(6) as usize }, stored });
         }
         let who_any = rng.below(6) as usize;
         match rng.below(100) {
@@ -1775,6 +1810,6 @@ fn run_tm_part(a: &Args, out: &OutDir, rep: &mut Report, replay: Option<tmw::Cas
         }
     }
     rep.rule.push_str(" || part 3: histories of deposit-triggered mints (SendNft of the required source tokens, own or explicit recipient) interleaved with MintTo/MintFor/Shuffle/Purge/BurnRemaining by admin, users and stranger on the token-merge minter created through the token-merge factory, num_tokens 1..60, up to and past sell-out; same counting rules");
-    out.write_cases("C01tm", "From LP Require Import Num Pay Sg1 TokenMerge C17Corr.", "c17_case", "c17_check", &coq_cases, 6, rep);
+    out.write_cases("C01tm", "From Coq Require Import String. From LP Require Import Num Pay Sg1 TokenMerge TokenMergeMigrate C17Corr.", "c17_case", "c17_check", &coq_cases, 6, rep);
     (cases.len(), nviol)
 }
